@@ -24,6 +24,7 @@ import re
 import subprocess
 import sys
 import tempfile
+import time
 
 from .common import backends, wire, imapresp, l3
 from .common.model import batch, VERIF
@@ -436,7 +437,9 @@ def one_history(part, r, work, lines, layout, other_fs, kind):
                 for root, dirs, files in os.walk(base):
                     for f in files:
                         if f.endswith('.lock'):
-                            os.utime(os.path.join(root, f), (1, 1))
+                            # a little more than the expiration, not back to the epoch: a clock other than the wall clock in the age computation would
+                            # make an epoch-old file look expired and a 700-second-old one not
+                            os.utime(os.path.join(root, f), (time.time() - 700, time.time() - 700))
                             part.stat('stale-lock-aged')
                 boxes, validity, subs, problems = asyncio.run(recover(base, layout))
                 ckase = dict(case, k=k, crash_mode=mode, in_flight=lines[inflight].split('\r\n')[0] if inflight < len(lines) else None, crash_op=[crash['op'], crash['path']])
